@@ -150,8 +150,11 @@ static void direct(const J& c, bool legacy) {
     try {
         // the arguments StylesheetRoot::setupFormatterListener passes: version, doIndent=false, indent, encoding, media type,
         // doctype-system, doctype-public, !omit-xml-declaration, standalone
-        if (legacy) fl = FormatterToXML::create(mm, writer, ver, false, 0, enc, empty, empty, empty, decl, empty);
-        else fl = XalanXMLSerializerFactory::create(mm, writer, ver, false, 0, enc, empty, empty, empty, decl, empty);
+        // "indent": true selects the indenting instantiations of the factory (one per encoding family x version); the cases that ask
+        // for it have a single element with text / attribute content only, where indentation adds nothing
+        const bool doIndent = c.boolean("indent", false);
+        if (legacy) fl = FormatterToXML::create(mm, writer, ver, doIndent, doIndent ? 2 : 0, enc, empty, empty, empty, decl, empty);
+        else fl = XalanXMLSerializerFactory::create(mm, writer, ver, doIndent, doIndent ? 2 : 0, enc, empty, empty, empty, decl, empty);
         feed(*fl, c.at("script"), mm);
     } catch (const xercesc::SAXException& e) { ok = false; msg = "SAXException: " + toUtf8(e.getMessage(), length(e.getMessage())); }
     catch (const XSLException& e) { ok = false; msg = "XSLException: " + excMessage(e); }
